@@ -424,7 +424,7 @@ fn plan_base(prop: &str) -> Vec<Item> {
             v.push(it("indep", "pool=2,k=1,mode=0,syncer=0", Some(1), 2));
             v.push(it("indep", "pool=2,k=1,mode=1,syncer=0", Some(1), 2));
             v.push(it("indep", "pool=2,k=1,mode=0,syncer=1", Some(1), 1));
-            v.push(it("indep", "pool=2,k=1,mode=1,syncer=1", Some(1), 1));
+            v.push(it("indep", "pool=2,k=1,mode=1,syncer=1", Some(0), 1));
             v.push(it("indep", "pool=3,k=2,mode=2,syncer=0", Some(0), 1));
             v.push(it("indep", "pool=3,k=2,mode=0,syncer=0", None, 1));
             for how in [0, 1] {
@@ -542,7 +542,7 @@ fn plan_base(prop: &str) -> Vec<Item> {
             for pool in [1, 2] {
                 v.push(it("pool_census", &format!("pool={},n=2,phases=3", pool), Some(if pool == 1 { 2 } else { 1 }), if pool == 1 { 3 } else { 2 }));
             }
-            v.push(it("pool_census", "pool=1,n=2,phases=0,dbg=1", Some(2), 3));
+            v.push(it("pool_census", "pool=1,n=2,phases=0,dbg=1", Some(1), 2));
             v.push(it("pool_census", "pool=2,n=2,phases=0,dbg=1", Some(0), 1));
             v.push(it("pool_census", "pool=1,n=3,phases=0", Some(1), 2));
             v.push(it("pool_census", "pool=2,n=3,phases=0", Some(0), 1));
